@@ -168,6 +168,23 @@ def run_case(rs, ctx):
             if o.get("X") is not None:
                 o["X"] = [[v + offset for v in row] for row in o["X"]]
         ctx.count("offset_context_histories")
+    if not is_tree:
+        # late log rows: after remove_arm, later batches may still name the removed arm (decisions are not validated against
+        # the arm list; such rows belong to no arm); decisions often arrive as a pandas Series (labels of different lengths)
+        gone = []
+        for o in ops:
+            if o["op"] == "remove_arm":
+                gone.append(o["arm"])
+            elif o["op"] == "add_arm" and o["arm"] in gone:
+                gone.remove(o["arm"])
+            elif o["op"] == "partial_fit":
+                if gone and rs.integers(2):
+                    o["d"] = [gen.pick(rs, gone) if rs.integers(4) == 0 else a for a in o["d"]]
+                    ctx.count("batches_with_rows_of_removed_arms")
+                if rs.integers(2):
+                    o["d_enc"] = "series"
+            elif o["op"] == "fit" and rs.integers(2):
+                o["d_enc"] = "series"
     m = gen.build(cfg)
     rows = {"d": [], "r": [], "X": []}
     per_arm = {}
